@@ -74,6 +74,16 @@ def campaign(c):
     for ln in range(0, L + 1):
         for t in itertools.product(ALPHABET, repeat=ln):
             check(c, [''.join(t), ';'], 'exh%d' % ln)
+    # every ASCII character (control characters and the punctuation the language does not use included) alone, doubled, and glued
+    # to a letter, a digit and a quote on either side; all pairs of printable ASCII characters
+    for code in list(range(0, 10)) + list(range(11, 128)):
+        ch = chr(code)
+        for t in (ch, ch + ch, 'a' + ch, ch + 'a', 'a' + ch + 'b', '1' + ch + '2', ch + '1', '_' + ch + '_', 'x ' + ch + ' y', '"s"' + ch, ch + '"s"'):
+            check(c, [t, ';'], 'ascii')
+    pr = [chr(x) for x in range(0x20, 0x7f)]
+    for a in pr:
+        for b in (pr if not c.quick else pr[::3] + ['[', ']', '\\', '^', '`', '~', '{', '}', '@', '$']):
+            check(c, [a + b, ';'], 'ascii2')
     c.extra['exhaustive_space'] = 'all %d^k strings for k <= %d over the class alphabet, each with a sentinel line' % (len(ALPHABET), L)
     c.exhaustive = False
     m = 1500 if c.quick else 60000
